@@ -326,7 +326,8 @@ def _park_case(case, ctx):
 
     def on_op(ev):
         if state["n"] == k:
-            os.write(a_out_w, (json.dumps({"parked": ev.kind, "t": time.monotonic()}) + "\n").encode())
+            os.write(a_out_w, (json.dumps({"parked": ev.kind, "t": time.monotonic(),
+                                           "held": sorted(mp_lists_left(store))}) + "\n").encode())
             select.select([a_go_r], [], [], PARK_S * 8)   # resumed by the parent (bounded)
         state["n"] += 1
     pa = os.fork()
@@ -343,8 +344,8 @@ def _park_case(case, ctx):
         if "parked" not in m:
             ctx.classify("park-point-beyond-call")   # A finished before boundary k: nothing to test here
             return
-        if not mp_lists_left(store):
-            # A is parked at a point where it holds no identifier (outside every critical section):
+        if not m.get("held"):
+            # A (by its OWN view of the lists) is parked at a point where it holds no identifier:
             # B completing now would be legitimate, so this park point says nothing about exclusion
             ctx.classify("park-point-outside-critical-section")
             os.write(a_go_w, b"g")
